@@ -10,7 +10,7 @@ for f in ["patch.diff", "demo.diff", "README.md", "confirm.log"]:
     if os.path.exists(os.path.join(m, f)):
         shutil.copy(os.path.join(m, f), os.path.join(dst, f))
 confirmed = "CONFIRMED=yes" in open(os.path.join(m, "confirm.log")).read()
-out = subprocess.run(["/verif/tools/try_mutant.sh", pid, os.path.join(dst, "patch.diff"), "quick"], capture_output=True, text=True).stdout
+out = subprocess.run(["/verif/tools/try_mutant_iso.sh", pid, os.path.join(dst, "patch.diff"), "quick"], capture_output=True, text=True).stdout
 sigs = re.findall(r"^violation signature=(\S+)", out, re.M)
 rc = re.findall(r"^exit=(\d+)", out, re.M)
 meta = {
